@@ -463,6 +463,19 @@ class Parser:
                 # a statement compiled only under a configuration: the translator must decide what that means
                 return ("cfg", attr, st)
             return st
+        if k == "id" and v in ("use", "static") and self.peek(1)[0] == "id":
+            # an item inside a block (`use a::{b, c};`, `static X: T = e;`): no behaviour of its own
+            depth = 0
+            while True:
+                kk, vv = self.peek()
+                if kk == "eof":
+                    raise Unsupported("unterminated item")
+                depth += vv in ("(", "[", "{")
+                depth -= vv in (")", "]", "}")
+                self.i += 1
+                if vv == ";" and depth == 0:
+                    break
+            return ("item", v)
         if v == "let":
             self.i += 1
             pat = self.pattern()
